@@ -99,7 +99,7 @@ func Supervise(id, tier string, seed int64) int {
 	start := time.Now()
 	exe, _ := os.Executable()
 	s := &supervisor{check: c, id: id, tier: tier, seed: seed, exe: exe,
-		workdir: filepath.Join(Root, "work", id), stall: 30 * time.Second}
+		workdir: filepath.Join(Root, "work", id+os.Getenv("VERIF_WORKDIR_SUFFIX")), stall: 30 * time.Second}
 	s.known = loadKnown(id)
 	if rb, ok := c.(RaceBuilt); ok && rb.NeedsRace() {
 		s.stall = 120 * time.Second
@@ -597,7 +597,11 @@ func (s *supervisor) finish(a *agg, n int, wall time.Duration) int {
 	}
 	eb, _ := json.MarshalIndent(ev, "", " ")
 	os.MkdirAll(filepath.Join(Root, "evidence"), 0o755)
-	if err := os.WriteFile(filepath.Join(Root, "evidence", s.id+".json"), append(eb, '\n'), 0o644); err != nil {
+	evName := s.id
+	if n := os.Getenv("VERIF_EVIDENCE_NAME"); n != "" {
+		evName = n // supplementary passes (e.g. the C09 pass built with another toolchain) keep their own file
+	}
+	if err := os.WriteFile(filepath.Join(Root, "evidence", evName+".json"), append(eb, '\n'), 0o644); err != nil {
 		fmt.Fprintln(os.Stderr, "cannot write evidence:", err)
 		return 2
 	}
